@@ -21,7 +21,7 @@ def jobs(pid, tier, seed):
     out += [{"kind": "fixture", "name": nm, "seed": seed * 1000 + i} for nm in sorted(SPECS) for i in range(8 if tier == "quick" else 150)]
     n = 900 if tier == "quick" else 20000
     out += [{"kind": "diff", "seed": seed * 1000003 + i} for i in range(n)]
-    out += [{"kind": "diff", "seed": seed * 1000003 + 5000000 + i, "life": 1} for i in range(n)]
+    out += [{"kind": "diff", "seed": seed * 1000003 + 5000000 + i, "life": 1} for i in range(2 * n)]
     return out
 
 
@@ -82,9 +82,9 @@ def gen_hist(s, life=False):
     napps = 2 + (s % 3 == 0)
     if life:
         from ..lifegen import LifeGen
-        # every third one names the same explicit mailbox id in both apps (on the unchanged tree that runs into the
+        # every second one names the same explicit mailbox id in both apps (on the unchanged tree that runs into the
         # known finding F8; what a tree does *instead* of failing is judged by the online oracles)
-        g = LifeGen(s, napps=2, two_apps=True, body_prefix="same", cross_app_mailboxes=(s % 3 == 0), jumps=(s % 5 == 2))
+        g = LifeGen(s, napps=2, two_apps=True, body_prefix="same", cross_app_mailboxes=(s % 2 == 0), jumps=(s % 5 == 2))
         h = g.gen()
         k = 0
         for st in h:
